@@ -57,6 +57,22 @@ CRITPATH_TIE = ("TRANSLATED tie: tools/extract_critpath.py turns, on every run, 
                 "passes is the stream's business (its decimal sub-stream). 26 semantic edits tried: 16 change results and fail kernel-checked "
                 "examples, 4 are result-preserving and fail only the lemmas, 2 tolerance variants differ off the grid only, 4 leave the fragment. ")
 
+PRINT_TIE = ("PARTIAL translated tie: tools/extract_print.py turns the sheet printer _Repr of task.py (cell texts, layout numbers, row sequence, "
+             "repr) into a PyLite program on every run; proved in general (Props/C20Src.lean): the link cells and the six computed fields are "
+             "the model's cell function, for every string library whose encoding round-trips; the __dict__ part of the cell function, the "
+             "column widths and the row sequence (depth-first, children on/off, level colours with the GREY fallback, print_color) are tied by "
+             "kernel-evaluated runs of the translated program on a concrete WBS (tests at the level of the kernel, imported by the Props "
+             "module: a source that no longer reproduces them breaks it); TextTable / colored_text are a primitive. 11 semantic edits tried, "
+             "all caught (9 failing runs, 2 leave the fragment). ")
+
+CSV_TIE = ("PARTIAL translated tie: tools/extract_csv.py turns the cell parsers / formatters, read_csv, write_csv (io/csv_io.py) and "
+           "tasks_to_raws / raws_to_wbs (io/raw.py) into a PyLite program on every run; proved in general (Props/C13Src.lean): the numbering "
+           "of texts round-trips and __parse_str is the model's nonEmpty; the other cell functions, the write side (= the model's writeCsv of "
+           "the records, header order) and the read side (= the model's readCsv + rebuildForest; older files without min_start, BOM, "
+           "permuted columns, the error cases) are tied by kernel-evaluated runs on concrete files (tests at the level of the kernel). "
+           "The csv module, strftime / strptime, float(), int(), str() are library primitives with a stated meaning. 12 semantic edits "
+           "tried: 8 leave the fragment, 4 fail the runs. ")
+
 LOOPS_TIE = ("TRANSLATED tie of the inner loops: tools/extract_schedule.py turns, on every run, _ResourceUsage.reserved/reserve/__get_key and both "
              "schedulers' __get_resource_nearest_available_date / __shift_by_resource_usage_and_calendar into PyLite terms; the *_source_* theorems "
              "prove that running the translated source on a ledger is the model's function (nearestFwd/shiftFwd/nearestBwd/shiftBwd, reserved) and "
@@ -190,7 +206,7 @@ CLAIMED = {
               "hierarchy and sibling order of a forest of any depth survive the trip through (id, parent_id) rows when ids are unique. "
               "Number/date formatting (str, repr, strftime/strptime) are Python built-ins outside the model. Tie: the model's file text must "
               "equal the bytes write_csv produced, the model's reading and rebuilt forest must equal what read_csv produced; round trip, "
-              "fixpoint bytes and hand-written variants (BOM, permuted columns) are also judged on the real objects."),
+              "fixpoint bytes and hand-written variants (BOM, permuted columns) are also judged on the real objects." + ' ' + CSV_TIE),
         design='7 (C13)', technique='Lean 4 proof (printer/parser round trip of a modelled csv dialect; forest rebuild) + differential correspondence'),
     'C10': dict(
         text=("Theorems about the model of WBS.clone / WBS.subtree (the very sequence of public setter calls wbs.py issues, replayed on the "
@@ -237,7 +253,7 @@ CLAIMED = {
               "indented three blanks per level, None = empty), C20_links (linked ids, external marker iff owners differ, hidden root shown as "
               "nothing), C20_unknown_field (empty cell). The model's sheet must equal the implementation's text character for character "
               "(random WBSs, names None/long/non-ASCII, unknown and differently-cased fields, themes with too few colours, print_color); line "
-              "count, alignment, indentation, link columns and the usage table's one-line-per-day are judged on the implementation's text."),
+              "count, alignment, indentation, link columns and the usage table's one-line-per-day are judged on the implementation's text." + ' ' + PRINT_TIE),
         design='7 (C20)', technique='Lean 4 proof (column-width and ANSI-stripping lemmas) + differential correspondence on the exact text'),
     'C14': dict(
         text=("Theorems C14_forward / C14_backward: for every WBS satisfying the structural invariants (forest stored on both ends, symmetric links; "
